@@ -155,6 +155,21 @@ inline void check_view(DataView &v, const Arr &r, const std::vector<Sel> &sel) {
     nixsym_assert(content, "view returns exactly the selected elements");
 }
 
+// known finding C07-eps-zone seen through the composite functions when the REAL kernels run (jobs built with -DVH_REAL_KERNELS):
+// a position within DBL_EPSILON of, but not on, a coordinate of an evenly spaced axis is converted as if it were on it
+inline bool near_not_on(double p, double step, double off) {
+    double r = std::round((p - off) / step) * step + off;
+    return (r != p) & (std::fabs(r - p) <= 2.220446049250313e-16);
+}
+inline bool axis_eps_zone(const Axis &ax, double p) {
+#ifdef VH_REAL_KERNELS
+    if (ax.kind == 2) return false;                       // range axes: comparisons only
+    return near_not_on(p, ax.kind == 1 ? ax.iv : 1.0, ax.kind == 1 ? ax.off : 0.0);
+#else
+    (void)ax; (void)p; return false;                      // contract kernels are exact
+#endif
+}
+
 inline double sym_pos(const char *name) { double p = nixsym_f64(name); nixsym_assume(p == p && p > -1e15 && p < 1e15); return p; }
 
 }  // namespace vh
